@@ -224,3 +224,41 @@ for e in ('m_eq', 'm_ne', 'm_lt', 'm_le', 'm_gt', 'm_ge', 'm_eq_typed', 'm_lt_ty
     ob(name='matchers.%s' % e[2:], kind='FC+', props=['C10'], unit='matchers', harness='h_matchers.c', entry=e, unwind=5,
        bound='none: loop-free, full 32-bit argument and operand domain; combinators over abstract operand matchers (arity <= 3 as instantiated)')
 LEVELS['C10'] = 'proof'
+
+# ----------------------------------------------------------------------------------------------
+# report / trace TEXT obligations (token-level model of ostringstream, VP_TOK_CAP=40)
+def _text_variants(n, ncond_digits, extra=None):
+    out = []
+    for tag, w in shapes_where(n):
+        d = {'N': n, 'KMAX': 1, 'W_WHERE': w, 'W_NCOND': ncond_digits, 'VP_TOK_CAP': 24}
+        if extra: d.update(extra)
+        out.append(('N%d.%s' % (n, tag), d))
+    return out
+ob(name='world.text.no_match_listing', kind='BL', props=['C15', 'C04'], unit='world_ii', harness='h_world.c', entry='w_nomatch_text',
+   variants=_text_variants(2, 8), unwind=26, timeout=1800, min_reach=0,
+   bound=_BOUND % 'N=2 expectations x {active,saturated,detached}, two WITH clauses each with free results; message = token log of capacity 40')
+ob(name='world.text.unfulfilled_report', kind='BL', props=['C04', 'C15'], unit='world_ii', harness='h_world.c', entry='w_unfulfilled_text',
+   variants=[('N1.' + tag, dict(d, W_T=0)) for tag, d in [(t, {'N': 1, 'KMAX': 1, 'W_WHERE': w, 'W_NCOND': 0, 'VP_TOK_CAP': 24}) for t, w in shapes_where(1, (0,))]], unwind=26, timeout=900, min_reach=0,
+   bound='one expectation, free bounds and count')
+ob(name='world.text.trace_record', kind='BL', props=['C17', 'C08'], unit='world_ii', harness='h_world.c', entry='w_trace_text',
+   variants=[('N1.A.act%d' % a, {'N': 1, 'KMAX': 1, 'W_WHERE': 0, 'W_NCOND': 0, 'W_NACT': a, 'VP_TOK_CAP': 24}) for a in (0, 1, 2)], unwind=26, timeout=900, min_reach=0,
+   bound='one expectation with 0..2 side effects (free throw behaviour) and a return handler')
+
+ob(name='world.find.two_with_clauses', kind='BL', props=['C01', 'C02', 'C08'], unit='world_ii', harness='h_world.c', entry='w_find',
+   variants=[(t, dict(d, W_NCOND=8)) for t, d in world_variants(2, 1)] + [('N2.AA.c02', {'N': 2, 'KMAX': 1, 'W_WHERE': 0, 'W_NCOND': 2 + 0 * 3}), ('N2.AA.c21', {'N': 2, 'KMAX': 1, 'W_WHERE': 0, 'W_NCOND': 1 + 2 * 3})],
+   unwind=7, min_reach=0, bound=_BOUND % 'N=2 expectations with 0..2 WITH clauses each (free results)')
+ob(name='world.text.sequence_destruction_listing', kind='BL', props=['C06', 'C15'], unit='world_ii', harness='h_world.c', entry='w_seqdtor_text',
+   variants=_text_variants(3, 13), unwind=26, timeout=900, min_reach=0,
+   bound=_BOUND % 'N=3 expectations, <=1 of 2 sequences each; message = token log of capacity 24')
+
+# ----------------------------------------------------------------------------------------------
+# unit world_mv: the same closure for a MOVABLE mock (primary template expectations<true,Sig>, mock_func<true,...>)
+import copy
+UNITS['world_mv'] = copy.deepcopy(UNITS['world_ii'])
+UNITS['world_mv']['roots']['MOCK_FUNC'] = '9mock_funcILb1EFiiEJRiEE'
+UNITS['world_mv']['roots']['EXPS'] = r'rec:^expectations<true,int\(int\)>$'
+UNITS['world_mv']['roots']['EXPS_DTOR'] = r'dtor:^expectations<true,int\(int\)>$'
+ob(name='world_mv.mockdtor.movable_mock_dies_first', kind='BL', props=['C04', 'C14', 'C15'], unit='world_mv', harness='h_world.c', entry='w_mockdtor',
+   variants=world_variants(2, 1), unwind=10, timeout=900, bound=_BOUND % 'movable mock, N=2 expectations', min_reach=0)
+ob(name='world_mv.call.mock_func', kind='BL', props=['C01', 'C02', 'C03', 'C05', 'C07', 'C08', 'C14', 'C16'], unit='world_mv', harness='h_world.c', entry='w_call',
+   variants=world_variants(2, 1), unwind=10, timeout=1800, bound=_BOUND % 'movable mock, N=2 expectations', min_reach=0)
